@@ -29,6 +29,20 @@ def build_variant(name, feats):
     return os.path.join(d, td, "release", "hf")
 
 
+def hf(ctx, name, binary, args, timeout):
+    """Run the feature-build executor; a build in which it dies (panic = exit 101, abort, signal) while running the code under
+    test behaves differently from the others -- on the unchanged tree no build ever dies."""
+    r = run([binary] + args, timeout=timeout, check=False)
+    if r.returncode < 0 or r.returncode in (101, 134, 137, 139):
+        tail = (r.stdout or "")[-500:].replace("\n", " | ")
+        ctx.violation("build %s: the process running `hf %s` died (exit status %d: panic, abort or invalid memory access in the code under test); "
+                      "last output: %s" % (name, args[0], r.returncode, tail), {"build": name, "command": args, "exit_status": r.returncode}, tag="crash")
+        raise ToolError("executor died (%d) in build %s: hf %s" % (r.returncode, name, args[0]))
+    if r.returncode != 0:
+        raise ToolError("command failed (%d): hf %s (%s)\n%s" % (r.returncode, args[0], name, (r.stdout or "")[-3000:]))
+    return r
+
+
 def check(ctx):
     build_harness()
     q = ctx.quick
@@ -54,7 +68,7 @@ def check(ctx):
     io_bad = 0
     for name, _ in COMBOS:
         out = ctx.path("io_%s.ndjson" % name)
-        run([bins[name], "io", cases_p, out], timeout=600)
+        hf(ctx, name, bins[name], ["io", cases_p, out], 600)
         got = read_ndjson(out)
         if len(got) != len(cases):
             raise ToolError("io run of %s returned %d records for %d cases" % (name, len(got), len(cases)))
@@ -94,7 +108,7 @@ def check(ctx):
     recs = {}
     for name, _ in COMBOS:
         out = ctx.path("progs_%s.ndjson" % name)
-        run([bins[name], "progs", fp, ip, out], timeout=1200)
+        hf(ctx, name, bins[name], ["progs", fp, ip, out], 1200)
         recs[name] = read_ndjson(out)
     base = recs["std_hash"]
     n_cmp = 0
